@@ -189,4 +189,80 @@ theorem loopW_fold_snd (k : Nat) (g : ι → σ → σ) (j : Nat) :
     simp only [ret_snd, ret_fst, Bool.false_eq_true, if_false, ih, List.length_cons]
     split <;> omega
 
+/-! ### `foldW?` (a `for` loop without `break`) -/
+
+theorem foldW_nil (k : Nat) (f : σ → ι → W σ) (s : σ) : foldW? k f s [] = W.ret s := rfl
+
+theorem foldW_cons (k : Nat) (f : σ → ι → W σ) (s : σ) (x : ι) (xs : List ι) :
+    foldW? k f s (x :: xs) = W.bind (W.tick k) fun _ => W.bind (f s x) fun s' => foldW? k f s' xs := rfl
+
+/-- the value of a counting fold is the plain `List.foldlM` on the values of its body. -/
+theorem foldW_fst (k : Nat) (f : σ → ι → W σ) :
+    ∀ (xs : List ι) (s : σ), (foldW? k f s xs).1 = List.foldlM (m := Option) (fun s x => (f s x).1) s xs := by
+  intro xs
+  induction xs with
+  | nil => intro s; rfl
+  | cons x xs ih =>
+    intro s
+    rw [foldW_cons, bind_fst, List.foldlM_cons]
+    show (W.bind (f s x) _).1 = _
+    rw [bind_fst]
+    cases (f s x).1 with
+    | none => rfl
+    | some r => simp only [Option.bind_some, ih]; rfl
+
+/-- ticks of a counting fold: its own counter at most once per element, any counter at most `B` per element when the body ticks it at most
+`B` times. -/
+theorem foldW_le (k j B : Nat) (f : σ → ι → W σ) (hf : ∀ s x, (f s x).2 j ≤ B) :
+    ∀ (xs : List ι) (s : σ), (foldW? k f s xs).2 j ≤ (if j = k then xs.length else 0) + xs.length * B := by
+  intro xs
+  induction xs with
+  | nil => intro s; simp [foldW_nil]
+  | cons x xs ih =>
+    intro s
+    rw [foldW_cons, bind_snd]
+    show _ + (W.bind (f s x) _).2 j ≤ _
+    rw [bind_snd]
+    have h1 := hf s x
+    have ht : (W.tick k).2 j = if j = k then 1 else 0 := rfl
+    rw [ht]
+    simp only [List.length_cons, Nat.succ_mul]
+    cases (f s x).1 with
+    | none =>
+      simp only
+      by_cases hjk : j = k
+      · simp only [hjk, if_true] at h1 ⊢; omega
+      · simp only [hjk, if_false]; omega
+    | some r =>
+      simp only
+      have := ih r
+      by_cases hjk : j = k
+      · simp only [hjk, if_true] at this h1 ⊢; omega
+      · simp only [hjk, if_false] at this ⊢; omega
+
+/-! ### upper bounds on ticks, compositionally -/
+
+theorem le_ret (a : α) (j B : Nat) : (W.ret a).2 j ≤ B := Nat.zero_le _
+theorem le_raise (j B : Nat) : (W.raise : W α).2 j ≤ B := Nat.zero_le _
+theorem le_bnd_opt (o : Option α) (f : α → W β) (j B : Nat) (h : ∀ a, (f a).2 j ≤ B) : (o >>== f).2 j ≤ B := by
+  rw [bnd_opt_snd]; cases o with
+  | none => exact Nat.zero_le _
+  | some a => exact h a
+theorem le_bnd_w (x : W α) (f : α → W β) (j B1 B2 B : Nat) (h1 : x.2 j ≤ B1) (h2 : ∀ a, (f a).2 j ≤ B2) (hB : B1 + B2 ≤ B) :
+    (x >>== f).2 j ≤ B := by
+  rw [bnd_w_snd]; cases x.1 with
+  | none => simp only; omega
+  | some a => have := h2 a; simp only; omega
+theorem le_bnd_opt' (o : Option α) (f : α → W β) (j B : Nat) (h : ∀ a, o = some a → (f a).2 j ≤ B) : (o >>== f).2 j ≤ B := by
+  rw [bnd_opt_snd]; cases o with
+  | none => exact Nat.zero_le _
+  | some a => exact h a rfl
+theorem le_bnd_w' (x : W α) (f : α → W β) (j B1 B2 B : Nat) (h1 : x.2 j ≤ B1) (h2 : ∀ a, x.1 = some a → (f a).2 j ≤ B2) (hB : B1 + B2 ≤ B) :
+    (x >>== f).2 j ≤ B := by
+  rw [bnd_w_snd]; cases hx : x.1 with
+  | none => simp only; omega
+  | some a => have := h2 a hx; simp only; omega
+theorem le_ite (c : Prop) [Decidable c] (a b : W α) (j B : Nat) (ha : a.2 j ≤ B) (hb : b.2 j ≤ B) : (if c then a else b).2 j ≤ B := by
+  split <;> assumption
+
 end TonVerif.Proofs.SrcW
